@@ -36,6 +36,8 @@ def ratArith : PArith Rat where
   lt a b := decide (a < b)
   le a b := decide (a ≤ b)
   range := rangeExact
+  ofInt i := (i : Rat)
+  floorI32 x := max (-2147483648) (min 2147483647 x.floor)
 
 theorem ratArith_probLaw : ProbLaw ratArith where
   bounds := fun lo hi n h1 h2 h3 =>
